@@ -410,11 +410,181 @@ def decoders_obligation(ctx):
             raise ValueError("no byte-exact rendering of the token counterexample reproduces; falling back to the API-level battery")
         return "e2n_c02_decode", native_vals(info["type"], info["bytes"])
     ob.finish(agg, cex_to_native=to_native)
+    lemma_obligation(ctx, res)
 
 
 if __name__ == "__main__" and len(sys.argv) > 1 and sys.argv[1] == "--worker":
     _, _, mir_, src_, tier_, tys_ = sys.argv
     print(json.dumps(worker(mir_, src_, tier_, tys_.split(","))))
+
+
+# ---------------------------------------------------------------- which decoders can run under a byte-preserving one
+def _fn_text(P, d):
+    out = []
+    for name, fn in P.fns.items():
+        if name == d or name.startswith(d + "::{closure"):
+            for stmts in fn.raw_blocks.values():
+                out += stmts
+    return "\n".join(out)
+
+
+def decoder_graph(P):
+    """(type -> types whose decoders its decoder calls, directly or through crate-local helper functions (transitively);
+        roots = types whose decoder keeps the bytes it consumed: deserilized_with_orig_bytes / fill_buf capture)"""
+    ents = decoder_entries(P)
+    is_dec = set(ents.values())
+    memo = {}
+    CALL = re.compile(r"= ((?:<[^;=]*?>|[A-Za-z_][\w]*)(?:::[\w<>{}#@ ,:.&\[\]()\-']+?)?)\((?:[^;]*)\) -> \[")
+    def expand(d, depth):
+        """text of function d, its closures and every crate-local non-decoder helper reachable from it"""
+        if d in memo:
+            return memo[d]
+        memo[d] = ""
+        txt = _fn_text(P, d)
+        full = [txt]
+        if depth < 6:
+            for call in set(CALL.findall(txt)):
+                if call.startswith(("std::", "core::", "alloc::", "cbor_event::", "<std::", "<core::", "<alloc::")):
+                    continue
+                try:
+                    h = P.resolve(call)
+                except Exception:
+                    h = None
+                if h and h in P.fns and h not in is_dec and h != d:
+                    full.append(expand(h, depth + 1))
+        memo[d] = "\n".join(full)
+        return memo[d]
+    g, roots = {}, set()
+    for t, d in ents.items():
+        full = expand(d, 0)
+        if "deserilized_with_orig_bytes" in full or "fill_buf" in full:
+            roots.add(t)
+        succ = set()
+        for m in re.finditer(r"<([\w:]+?)(?:<[^>]*>)? as (?:[\w:]*::)?Deserialize(?:EmbeddedGroup)?>::deserialize|([\w:]+)::deserialize(?:_as_embedded_group)?\(|deserialize::<([\w:]+)>|\{<([\w:]+) as (?:[\w:]*::)?Deserialize>::deserialize", full):
+            for x in m.groups():
+                if x and last_seg(x) in ents and last_seg(x) != t:
+                    succ.add(last_seg(x))
+        g[t] = succ
+    return g, roots
+
+
+def closure(g, roots):
+    seen, todo = set(roots), list(roots)
+    while todo:
+        for y in g.get(todo.pop(), ()):
+            if y not in seen:
+                seen.add(y); todo.append(y)
+    return seen
+
+
+# ---------------------------------------------------------------- second clause of C02: what a parser accepted re-serializes well formed
+VERIF_DIR = os.path.dirname(os.path.dirname(os.path.dirname(os.path.abspath(__file__))))
+
+
+def lenient_key(t, cls):
+    return "C02-lenient-%s-%s" % (t, cls)
+
+
+def probe_vals(t, cls):
+    name = t.encode()
+    return [[len(name)]] + [[c] for c in name] + [[0 if cls == "early-break" else 1]]
+
+
+# real-byte instances of a (type, class) for decoders whose token-level witness has opaque nested values (used for the native
+# confirmation only; the failure itself is found on the token model)
+HANDMADE = {
+    ("AuxiliaryData", "declared-length"): "83a080",
+    ("ExUnitPrices", "declared-length"): "83d81e820102d81e820102",
+    ("PoolMetadata", "declared-length"): "836161" + "5820" + "01" * 32,
+    ("Update", "declared-length"): "83a000",
+    ("VRFCert", "declared-length"): "83" + "4101" + "5850" + "02" * 80,
+    ("MultiHostName", "declared-length"): "83026161",
+    ("RelayEnum", "declared-length"): "83026161",
+    ("UnitInterval", "declared-length"): "d81e830102",
+    ("NativeScriptEnum", "declared-length"): "8300" + "581c" + "01" * 28,
+    ("ConstrPlutusData", "declared-length"): "d866830080",
+    ("BootstrapWitness", "declared-length"): "85" + "5820" + "09" * 32 + "5840" + "07" * 64 + "5820" + "01" * 32 + "41a0",
+    ("SingleHostName", "declared-length"): "8401f66161",
+    ("OperationalCert", "declared-length"): "85" + "5820" + "01" * 32 + "0102" + "5840" + "07" * 64,
+}
+
+
+def lemma_obligation(ctx, res):
+    """Byte-preserving decoders (FixedTransaction, FixedTxWitnessesSet, FixedBlock, PlutusData: C04 decides that they re-emit
+    verbatim the range their nested decoders consumed) produce well-formed CBOR again exactly if every decoder that can run
+    under them consumes ONE well-formed item whenever it accepts.  Decided per decoder on the adversarial corpus of the
+    totality obligation; a failure is a token stream that is accepted although no well-formed item starts at its beginning
+    (a break where an element of a definite container is due; fewer elements than declared)."""
+    from prove import Obligation
+    P = ctx.P
+    ob = Obligation(ctx, "c02_e2_accepted_input_is_one_wellformed_item", "", ["<T as Deserialize>::deserialize for every impl that can run under a byte-preserving decoder"])
+    g, roots = decoder_graph(P)
+    inside = closure(g, roots)
+    if not {"FixedTransaction", "PlutusData"} <= roots:
+        ob.fail("the byte-preserving decoders were not recognised in the MIR (roots found: %s)" % sorted(roots))
+    try:
+        kf = json.load(open(os.path.join(VERIF_DIR, "known_findings.json")))
+    except Exception:
+        kf = {}
+    known = {k["id"] for k in kf.get("findings", []) if k.get("property") == "C02" and k.get("status") == "known"}
+    try:
+        unconfirmable = set(json.load(open(os.path.join(os.path.dirname(os.path.abspath(__file__)), "c02_lemma_unconfirmable.json"))))
+    except Exception:
+        unconfirmable = set()
+    held, failing, noted, listed, outside_claim = [], [], [], [], []
+    dump = {}
+    for t in sorted(res):
+        r = res[t]
+        if r.get("unsupported") is not None:
+            continue
+        classes = {}
+        for l in r.get("lenient", []):
+            classes.setdefault(l["what"], []).append(l)
+        if not classes:
+            held.append(t); continue
+        for cls, ws in sorted(classes.items()):
+            key = lenient_key(t, cls)
+            if t not in inside:
+                noted.append(key); continue          # nothing keeps the bytes this decoder consumed: lenient, but not against the property
+            if key in known:
+                listed.append(key); continue          # announced (and re-executed natively) by the runner
+            # new: confirm against the real decoder, byte-exactly if a witness renders, else on the native samples of the type
+            confirmed = None
+            if ctx.native_replay is not None:
+                hm = HANDMADE.get((t, cls))
+                for w in [w for w in ws if w["bytes"]][:3] + ([{"bytes": hm, "tokens": ws[0]["tokens"] + " (real-byte instance " + hm + ")"}] if hm else []):
+                    rr = ctx.native_replay("e2n_c02_lenient", native_vals(t, w["bytes"]), "dev"); ctx.native_runs += 1
+                    if rr.get("outcome") == "panic" and "accepts the malformed CBOR" in rr.get("message", ""):
+                        confirmed = ("e2n_c02_lenient", native_vals(t, w["bytes"]), w); break
+                if confirmed is None:
+                    rr = ctx.native_replay("e2n_c02_lenient_probe", probe_vals(t, cls), "dev"); ctx.native_runs += 1
+                    if rr.get("outcome") == "panic" and "accepts the malformed CBOR" in rr.get("message", ""):
+                        confirmed = ("e2n_c02_lenient_probe", probe_vals(t, cls), ws[0])
+            dump[key] = {"type": t, "class": cls, "tokens": ws[0]["tokens"], "confirmed": None if confirmed is None else {"harness": confirmed[0], "values": confirmed[1], "bytes": confirmed[2]["bytes"]}}
+            if confirmed is not None:
+                failing.append(key)
+                ob.problems.append(("cex", "%s accepts malformed CBOR (%s): [%s]%s; byte-preserving decoders above it (%s) re-emit it verbatim" %
+                                    (t, cls, confirmed[2]["tokens"], " = bytes " + confirmed[2]["bytes"] if confirmed[0] == "e2n_c02_lenient" else "", ", ".join(sorted(roots))), None,
+                                    {"harness": confirmed[0], "values": confirmed[1]}))
+            elif key in unconfirmable:
+                outside_claim.append(key)
+            else:
+                ob.problems.append(("inconclusive", "%s accepts a malformed token stream (%s): [%s] — the witness has opaque nested values and does not reproduce on real bytes" % (t, cls, ws[0]["tokens"]), None))
+    if os.environ.get("C02_LEMMA_DUMP"):
+        json.dump(dump, open(os.environ["C02_LEMMA_DUMP"], "w"), indent=1)
+    ob.queries += sum(r["runs"] for r in res.values())
+    ob.bound = ("the corpus and decoders of c02_e2_decoders_total_on_adversarial_tokens; byte-preserving roots found in the MIR: %s; %d decoders can run under them. Lemma holds for %d decoders; "
+                "listed known findings (type-class): %d; lenient decoders under no byte-preserving root (noted, not against the property): %s; token-level witnesses that cannot be confirmed on real bytes "
+                "(opaque nested values, no native sample; committed list, outside the claim): %s"
+                % (", ".join(sorted(roots)), len(inside), len(held), len(listed), ", ".join(noted) or "none", ", ".join(outside_claim) or "none"))
+    ctx.log("  [E2] accepted-input lemma: holds for %d decoders, %d known (type, class) findings, %d new, %d noted outside byte-preserving roots, %d outside the claim" % (len(held), len(listed), len(failing), len(noted), len(outside_claim)))
+    agg = Engine(P)
+
+    def to_native(model, info):
+        if not info:
+            raise ValueError("no native witness")
+        return info["harness"], info["values"]
+    ob.finish(agg, cex_to_native=to_native)
 
 
 # ---------------------------------------------------------------- (b) public text / bytes entry wrappers
